@@ -306,6 +306,9 @@ def rule_wakeups(ctx):
         ("nni_task_dispatch", "nni_task.task_busy"): "task_busy is decremented again by nni_task_exec on the task thread, which wakes",
         ("sock_shutdown", "nni_socket.s_ctxs"): "runs once, in the first closer (s_closing latch at its entry), before that same thread "
                                                 "waits in sock_close: no other thread can be waiting on s_close_cv yet",
+        ("nni_posix_pfd_stop", "nni_posix_pfd.reaped"): "poll(2) back end: a pfd is stopped by its single owner; the branch that sets "
+                                                          "reaped itself is taken by that same caller (poller thread or closed queue) "
+                                                          "instead of the branch that waits, so no other thread can be waiting on this pfd",
         ("ws_stop", "nni_ws_dialer.wspend"): "defensive branch: every path that reaps a still-pending websocket removes it from wspend "
                                              "(with the wake, checked by this rule) first, so ws_stop finds the node inactive",
     }
